@@ -46,7 +46,7 @@ open Bardolph.Generated
 
 theorem C16_regex_sources_agree :
     Generated.TimePattern.regexSpec
-        = "(\\*|\\*\\d|\\d\\*|\\d\\d?):(\\d\\d|\\d\\*|\\*\\d|\\*)(?=(\\s|$))" ∧
+        = "(\\*|\\*\\d|\\d\\*|\\d\\d?):(\\d\\d|\\d\\*|\\*\\d|\\*)(?=(\\s|[#\\]]|$))" ∧
     LexTables.cmpSpec = "==|<=|>=|!=|[<>]" ∧
     LexTables.literalStringSpec = "\"([^\"]|(?<=\\\\)\")*\"" ∧
     LexTables.numberSpec = "[0-9]*\\.?[0-9]+" ∧
